@@ -462,8 +462,11 @@ def basis_ders_above_degree(ctx, p, mult, extra, fn, j, where):
 # knot vectors
 # ------------------------------------------------------------------------------------------------
 @scenario('C03', fns=['knotvector.generate', 'knotvector.check', 'linalg.linspace', 'utilities.generate_knot_vector'],
-          quick=[dict(degree=d) for d in range(1, 8)])
-def kv_generate(ctx, degree):
+          quick=[dict(degree=d) for d in range(1, 8)],
+          # the same contract at run time on native floats for counts at which an evenly spaced sequence computed as
+          # start + i*step misses its end value by one ulp (outside A1: invisible in exact arithmetic)
+          native=lambda tier: [dict(degree=3, counts=[52, 101, 106, 110]), dict(degree=2, counts=[51, 100])])
+def kv_generate(ctx, degree, counts=None):
     """concrete sweep: num_ctrlpts = degree+1 .. degree+8, clamped and unclamped (exact arithmetic, equality is exact)
        ensures  len == degree + num_ctrlpts + 1; non-decreasing; first 0, last 1; clamped: end multiplicity exactly
                 degree+1; unclamped: simple end knots (indeed all knots distinct); knotvector.check accepts it"""
@@ -471,7 +474,7 @@ def kv_generate(ctx, degree):
     ut = ctx.geomdl('utilities')
     ctx.check_true('utilities.aliases', ut.generate_knot_vector is kvm.generate and ut.check_knot_vector is kvm.check
                    and ut.normalize_knot_vector is kvm.normalize)
-    for n in range(degree + 1, degree + 9):
+    for n in (counts or range(degree + 1, degree + 9)):
         for clamped in (True, False):
             tag = 'generate(%s)' % ('clamped' if clamped else 'unclamped')
             U = kvm.generate(degree, n, clamped=clamped)
@@ -485,6 +488,8 @@ def kv_generate(ctx, degree):
                 for i in range(degree + 1):
                     ctx.check_eq(tag + '.head_mult', U[i], U[0])
                     ctx.check_eq(tag + '.tail_mult', U[-1 - i], U[-1])
+                # multiplicity is counted with ==: the repeated end knots are the same number, not numbers one ulp apart
+                ctx.check_true(tag + '.end_knots_identical', all(U[i] == U[0] and U[-1 - i] == U[-1] for i in range(degree + 1)), what)
                 ctx.check(tag + '.head_mult_exact', ctx.lt(U[degree], U[degree + 1]), what)
                 ctx.check(tag + '.tail_mult_exact', ctx.lt(U[-degree - 2], U[-degree - 1]), what)
             else:
